@@ -1,5 +1,6 @@
 import Pep508.Driver.Names
 import Pep508.Driver.Marker
+import Pep508.Driver.Parse
 open Pep508.Driver
 
 def step (line : String) : String :=
@@ -9,6 +10,8 @@ def step (line : String) : String :=
   | "ev" :: args => runEv args
   | "disj" :: args => runDisj args
   | "xev" :: args => runXev args
+  | "mparse" :: args => runMparse args
+  | "eparse" :: args => runEparse args
   | _ => "bad-op"
 
 partial def loop (h : IO.FS.Stream) (out : IO.FS.Stream) : IO Unit := do
